@@ -1743,6 +1743,65 @@ pub(crate) fn corpus_cases() -> Vec<(K, Input, Vec<Delivery>, usize, Option<usiz
     v.push(t(K::Fasta, b">sq0  two words \nACGT\n>\nAC\n", vec![I], 3, 2));
     v.push(t(K::Fasta, b"ACGT\n", vec![], 2, 2));
     v.push(t(K::Fasta, b">sq0\nAC>GT\nAA\n", vec![], 1, 1));
+    // --- tabix / CSI (appended last: the indices of the cases above are replay keys): the inputs of the
+    // /repo `fix:` commits 125ecd7 (a names block cut short by the end of the input is an error) and
+    // 8288cb5 (`read_aux` skips what the tabix header leaves of the `l_aux` bytes)
+    let wrapped = |k: K, p: Vec<u8>, seed: u64, sched: Vec<Delivery>, fb: usize| {
+        let file = bgzf_wrap(&mut Rng::new(seed), &p);
+        let b = bgzf_member_ends(&file);
+        (k, Input { data: file, model: p, bounds: b, sizes: vec![] }, sched, fb, None)
+    };
+    let tbx_header = |l_nm: u32, names: &[u8]| {
+        let mut h = vec![];
+        for x in [2u32, 1, 2, 0, 35, 0, l_nm] {
+            h.extend_from_slice(&x.to_le_bytes());
+        }
+        h.extend_from_slice(names);
+        h
+    };
+    // tabix, n_ref = 0, l_nm = 4 but the input ends after `a NUL` (a name boundary): rejected since 125ecd7
+    // (before: an index with the single name `a`)
+    let mut tbi_cut = b"TBI\x01\0\0\0\0".to_vec();
+    tbi_cut.extend(tbx_header(4, b"a\0"));
+    v.push(wrapped(K::Tbi, tbi_cut.clone(), 11, vec![], usize::MAX));
+    v.push(wrapped(K::Tbi, tbi_cut, 12, vec![C(5), I, C(1)], 3));
+    // the same names block complete: accepted, names `a`, `b`
+    let mut tbi_full = b"TBI\x01\0\0\0\0".to_vec();
+    tbi_full.extend(tbx_header(4, b"a\0b\0"));
+    v.push(wrapped(K::Tbi, tbi_full, 13, vec![I, C(7)], 2));
+    // tabix, n_ref = 1, l_nm = 3 and only `a NUL` before the end of the input
+    let mut tbi_cut1 = b"TBI\x01\x01\0\0\0".to_vec();
+    tbi_cut1.extend(tbx_header(3, b"a\0"));
+    v.push(wrapped(K::Tbi, tbi_cut1, 14, vec![], 4));
+    // CSI, l_aux = 34 = a 30-byte tabix header (names `a NUL`) + 4 bytes of padding, then n_ref = 0 and
+    // n_no_coor = 5: since 8288cb5 the padding is skipped (before: n_ref / n_no_coor read 4 bytes early)
+    let csi_with_aux = |l_aux: u32, aux: &[u8], rest: &[u8]| {
+        let mut p = b"CSI\x01".to_vec();
+        for x in [14u32, 5, l_aux] {
+            p.extend_from_slice(&x.to_le_bytes());
+        }
+        p.extend_from_slice(aux);
+        p.extend_from_slice(rest);
+        p
+    };
+    let mut tail = 0u32.to_le_bytes().to_vec();
+    tail.extend_from_slice(&5u64.to_le_bytes());
+    let mut aux = tbx_header(2, b"a\0");
+    aux.extend_from_slice(&[0, 0, 0, 0]);
+    v.push(wrapped(K::Csi, csi_with_aux(34, &aux, &tail), 15, vec![], usize::MAX));
+    v.push(wrapped(K::Csi, csi_with_aux(34, &aux, &tail), 16, vec![C(9), I, C(2)], 5));
+    // padding that is not zero and not a multiple of four (7 bytes)
+    let mut aux7 = tbx_header(2, b"a\0");
+    aux7.extend_from_slice(&[1, 0, 0, 0, 9, 9, 9]);
+    v.push(wrapped(K::Csi, csi_with_aux(37, &aux7, &tail), 17, vec![], 3));
+    // l_aux promises more padding than the input has: the drain stops at the end of the input (no error
+    // of its own), then n_ref is missing
+    v.push(wrapped(K::Csi, csi_with_aux(64, &aux, &[]), 18, vec![], 2));
+    // l_nm = 4 reaches beyond the l_aux = 30 bytes of the aux block: the names `Take` is cut short by the
+    // outer `Take` (`a NUL`, limit 2 left): an error since 125ecd7, though `b NUL` follows in the stream
+    let mut over = b"b\0".to_vec();
+    over.extend_from_slice(&tail);
+    v.push(wrapped(K::Csi, csi_with_aux(30, &tbx_header(4, b"a\0"), &over), 19, vec![], usize::MAX));
     v
 }
 
